@@ -22,7 +22,10 @@ def dump(obj, eq=False, _depth=0, _seen=None, tz=False):
         return ('b' if eq else type(obj).__name__, bytes(obj))
     if isinstance(obj, datetime.datetime):
         if obj.tzinfo is not None:
-            off = obj.utcoffset()
+            try:
+                off = obj.utcoffset()
+            except ValueError:      # a tzinfo the datetime module itself refuses (offset of 24 hours or more)
+                return ('dt-unusable', obj.replace(tzinfo=None).isoformat(), repr(obj.tzinfo))
             if eq and not tz:      # aware datetimes are equal when they denote the same instant (as == does)
                 return ('dt-aware', (obj - off).replace(tzinfo=None).isoformat())
             return ('dt-aware', (obj - off).replace(tzinfo=None).isoformat(), off.total_seconds())
